@@ -511,7 +511,7 @@ def check(tier, seed):
                      "BFS root order and pointer order of edge descriptors are recovered from the run and fed to the model as oracles; the schedule bit stream and the push permutation are given to both sides",
                      "boost::d_ary_heap_indirect<.,4,.> behaves as HeapModel.v; std::set<Edge> iterates in pointer order",
                      "double weights are integer multiples of a power of two, sums below 2^53; int weights with 2*sum < 2^31 (exact domain)",
-                     "limit-monotonicity / optimality of bidirectional_signed_dijkstra is a premise of the instantiated theorems (C03a_*_modulo_search), tested here, not proved"],
+                     "C03_signed_tbb needs no premise about the search (it rests on BidirProofs*.v); only the two C03a_*_modulo_search instances keep per-index limit-monotonicity as a premise"],
         trusted_extra=["harness/shim/tbb/*.h (fake TBB executing an explicit schedule), harness/c03.cpp, harness/c03_real.cpp (TSan fork/join annotations)"],
         explanation="The theorems cover every schedule tree (arbitrary split points, Seq/Fork labelling, execution order), every insertion order of the initial supports and "
                     "every partition of the update range. This run ties the model to parmcb_sva_signed_tbb.hpp by exact agreement (cycles and bits consumed) under the same "
